@@ -18,6 +18,7 @@ import (
 	"net/netip"
 	"sort"
 	"strings"
+	"sync"
 	"testing"
 	"time"
 
@@ -1201,10 +1202,218 @@ func (h *c17Hist) evReestablish() bool {
 	return true
 }
 
+// poolSpec finds the key spec a VPN key of the PE pool was built from.
+func (h *c17Hist) poolSpec(fam bgp.Family, key string) (c17KeySpec, bool) {
+	for _, ks := range h.pePool {
+		if ks.fam == fam && ks.nlri(0).String() == key {
+			return ks, true
+		}
+	}
+	return c17KeySpec{}, false
+}
+
+// evRace: an rtc speaker changes a membership and, at the same instant and from its own goroutine, another speaker
+// withdraws / replaces / announces VPN routes carrying that route target: gobgp's two receive goroutines re-evaluate
+// the same routes for the same neighbour concurrently. The model is the same relation: only the end state counts.
+func (h *c17Hist) evRace() {
+	r := h.r
+	rtcs := h.upPeers(c17RTC)
+	if len(rtcs) == 0 {
+		return
+	}
+	b := rtcs[r.IntN(len(rtcs))]
+	var srcs []*c17Peer
+	for _, p := range h.upPeers(c17PE, c17RTC) {
+		if p != b {
+			srcs = append(srcs, p)
+		}
+	}
+	if len(srcs) == 0 {
+		return
+	}
+	a := srcs[r.IntN(len(srcs))]
+
+	// ---- b's side: a membership change that changes its interest
+	id := uint32(0)
+	if b.apRTC {
+		id = uint32(1 + r.IntN(2))
+	}
+	var mb c17Member
+	var rt *c17RT
+	withdraw := false
+	var fresh []c17RT
+	for _, x := range c17TransRTs {
+		if !c17HasRT(b.members, x.hex()) {
+			fresh = append(fresh, x)
+		}
+	}
+	switch {
+	case r.IntN(4) == 0 && len(b.members) > 0:
+		var ms []c17Member
+		for m := range b.members {
+			ms = append(ms, m)
+		}
+		sort.Slice(ms, func(i, j int) bool { return fmt.Sprint(ms[i]) < fmt.Sprint(ms[j]) })
+		mb, withdraw = ms[r.IntN(len(ms))], true
+		for _, x := range append(append([]c17RT{}, c17TransRTs...), c17NonTransRTs...) {
+			if x.hex() == mb.rt {
+				x := x
+				rt = &x
+			}
+		}
+	case r.IntN(6) == 0 && !c17HasRT(b.members, c17DefaultRT):
+		mb = c17Member{as: 0, rt: c17DefaultRT, id: id}
+	case len(fresh) > 0:
+		x := fresh[r.IntN(len(fresh))]
+		rt = &x
+		mb = c17Member{as: b.spec.AS, rt: x.hex(), id: id}
+	default:
+		return
+	}
+	var ec bgp.ExtendedCommunityInterface
+	if rt != nil {
+		ec = rt.ec()
+	}
+	nl := bgp.NewRouteTargetMembershipNLRI(mb.as, ec)
+	var bMsg *bgp.BGPMessage
+	if withdraw {
+		bMsg = c17BuildMPWithdraw(bgp.RF_RTC_UC, nl, mb.id)
+	} else {
+		bMsg = c17BuildMP(b, bgp.RF_RTC_UC, nl, mb.id, nil, 100, 0, nil)
+	}
+
+	// ---- a's side: changes of routes that carry the target (any route for the default membership)
+	carries := func(rtx *c17Route) bool {
+		if rt == nil {
+			return true
+		}
+		for _, x := range rtx.rts {
+			if x.hex() == rt.hex() {
+				return true
+			}
+		}
+		return false
+	}
+	var mine []*c17Route
+	for _, rtx := range h.m.routes {
+		if rtx.src == a.addr() && carries(rtx) {
+			if _, ok := h.poolSpec(rtx.fam, rtx.key); ok {
+				mine = append(mine, rtx)
+			}
+		}
+	}
+	sort.Slice(mine, func(i, j int) bool { return fmt.Sprint(mine[i].c17PathKey) < fmt.Sprint(mine[j].c17PathKey) })
+	r.Shuffle(len(mine), func(i, j int) { mine[i], mine[j] = mine[j], mine[i] })
+	if len(mine) > 3 {
+		mine = mine[:3]
+	}
+	var aMsgs []*bgp.BGPMessage
+	var apply []func()
+	desc := ""
+	withRT := func(rts []c17RT) []c17RT {
+		if rt != nil {
+			rts = append(rts, *rt)
+		}
+		return rts
+	}
+	for _, old := range mine {
+		old := old
+		ks, _ := h.poolSpec(old.fam, old.key)
+		nlr := ks.nlri(uint32(100 + r.IntN(3)))
+		switch r.IntN(4) {
+		case 0, 1:
+			aMsgs = append(aMsgs, c17BuildMPWithdraw(old.fam, nlr, old.id))
+			apply = append(apply, func() { h.delRoute(old.c17PathKey, "route-withdraw"); delete(a.lastMsg, old.c17PathKey) })
+			desc += fmt.Sprintf(" W:%s#%d", old.key, old.id)
+		default:
+			rts := h.randRouteRTs()
+			if r.IntN(2) == 0 {
+				rts = withRT(rts)
+			}
+			tag := h.tag()
+			msg := c17BuildMP(a, old.fam, nlr, old.id, rts, 100, tag, nil)
+			aMsgs = append(aMsgs, msg)
+			nr := &c17Route{c17PathKey: old.c17PathKey, rts: rts, tag: tag, plain: ks.plain(), rd: ks.rdString()}
+			apply = append(apply, func() { h.putRoute(nr); a.lastMsg[nr.c17PathKey] = msg })
+			desc += fmt.Sprintf(" R:%s#%d rts=%s tag=%d", old.key, old.id, c17RTsString(rts), tag)
+		}
+	}
+	if len(mine) == 0 || r.IntN(3) == 0 { // a route that becomes due through the very membership being announced
+		ks := h.pePool[r.IntN(len(h.pePool))]
+		aid := uint32(0)
+		if a.apVPN {
+			aid = uint32(1 + r.IntN(2))
+		}
+		nlr := ks.nlri(uint32(100 + r.IntN(3)))
+		pk := c17PathKey{ks.fam, nlr.String(), a.addr(), aid}
+		dup := false
+		for _, o := range mine {
+			dup = dup || o.c17PathKey == pk
+		}
+		if !dup {
+			rts := withRT(c17Subset(r, c17TransRTs, 0, 1))
+			tag := h.tag()
+			msg := c17BuildMP(a, ks.fam, nlr, aid, rts, 100, tag, nil)
+			aMsgs = append(aMsgs, msg)
+			nr := &c17Route{c17PathKey: pk, rts: rts, tag: tag, plain: ks.plain(), rd: ks.rdString()}
+			apply = append(apply, func() { h.putRoute(nr); a.lastMsg[pk] = msg })
+			desc += fmt.Sprintf(" A:%s#%d rts=%s tag=%d", pk.key, aid, c17RTsString(rts), tag)
+		}
+	}
+
+	// ---- both at the same instant
+	var wg sync.WaitGroup
+	wg.Add(2)
+	go func() { defer wg.Done(); b.sp.sendMsg(bMsg) }()
+	go func() {
+		defer wg.Done()
+		for _, m := range aMsgs {
+			if a.sp.sendMsg(m) != nil {
+				return
+			}
+		}
+	}()
+	wg.Wait()
+
+	// ---- the model: both changes happened
+	for _, f := range apply {
+		f()
+	}
+	before := c17HasRT(b.members, mb.rt)
+	if withdraw {
+		delete(b.members, mb)
+	} else {
+		b.members[mb] = true
+	}
+	after := c17HasRT(b.members, mb.rt)
+	what := "membership"
+	if mb.rt == c17DefaultRT {
+		what = "default-membership"
+	}
+	kind := what + "-announce"
+	switch {
+	case withdraw && before && !after:
+		kind = what + "-withdraw"
+	case withdraw:
+		kind = what + "-withdraw-nochange"
+	case before:
+		kind = what + "-announce-nochange"
+	}
+	h.note("peer:"+b.addr()+":rt:"+mb.rt, kind)
+	h.change(kind)
+	h.ev("race-"+kind, b.addr())
+	h.events["race"]++
+	h.events["race-"+kind]++
+	h.events["race-route-changes"] += len(aMsgs)
+	h.logf("race %s %s %s#%d (%s) || %s:%s", b.addr(), map[bool]string{false: "rtm-announce", true: "rtm-withdraw"}[withdraw], nl, mb.id, kind, a.addr(), desc)
+}
+
 func (h *c17Hist) step() bool {
 	h.ev("noop", "")
-	k := h.r.IntN(108)
+	k := h.r.IntN(120)
 	switch {
+	case k >= 108:
+		h.evRace()
 	case k >= 104:
 		h.evGREor()
 	case k >= 100:
